@@ -66,10 +66,13 @@ func (c c09Clause) body() string {
 	if !c.rule {
 		return ""
 	}
-	if c.s[len(c.s)-1]%2 == 0 {
+	switch c.s[len(c.s)-1] % 3 {
+	case 0:
 		return "true"
+	case 1:
+		return "atom(a)"
 	}
-	return "atom(a)"
+	return "share" // a goal that shares a variable with the head: K = K, written with the clause's first argument
 }
 
 // headOnly: does retract(Head), i.e. retract((Head :- true)), match this clause's body?
@@ -77,6 +80,12 @@ func (c c09Clause) headOnly() bool { return c.body() == "" || c.body() == "true"
 
 func (c c09Clause) text(pred int) string {
 	k := c.k
+	if c.body() == "share" {
+		if k == "_" {
+			k = "Sh" // head and body share it
+		}
+		return fmt.Sprintf("(d%d(%s, %s) :- %s = %s)", pred, k, c.s, k, k)
+	}
 	h := fmt.Sprintf("d%d(%s, %s)", pred, k, c.s)
 	if c.rule {
 		return "(" + h + " :- " + c.body() + ")"
@@ -339,6 +348,16 @@ func c09Answer(kind, k string, c c09Clause) string {
 		b := c.body()
 		if b == "" {
 			b = "true"
+		}
+		if b == "share" {
+			// the body's variable is the head's first argument: it has whatever the goal's pattern gave that argument
+			kk := "_A"
+			if k != "_" {
+				kk = k
+			} else if c.k != "_" {
+				kk = c.k
+			}
+			b = fmt.Sprintf("=(%s,%s)", kk, kk)
 		}
 		parts = append(parts, "B="+b)
 	}
@@ -1050,6 +1069,9 @@ func initialDump(sc *c09Scenario) string {
 		fmt.Sscanf(t, "d%d", &p)
 		rest = t[strings.IndexByte(t, '(')+1 : strings.LastIndexByte(t, ')')]
 		f := strings.SplitN(rest, ", ", 2)
+		if f[0] == "Sh" {
+			f[0] = "_" // the variable a rule shares with its body
+		}
 		st.assert(p, false, f[0], f[1], false)
 	}
 	return st.dump()
